@@ -148,6 +148,9 @@ def _objects():
         'quad_a': lambda: fem.MeshQuad().refined(1),
         'quad_b': lambda: fem.MeshQuad.init_tensor(np.array([0., 0.375, 1.]), np.array([0., 0.75, 1.])),
         'tet_a': lambda: fem.MeshTet().refined(1),
+        # strongly stretched cells: the containing cell is often not among the nearest centroids (finder fallback)
+        'tri_s': lambda: fem.MeshTri.init_tensor(np.linspace(0, 1, 25), np.linspace(0, 24, 3)),
+        'tet_s': lambda: fem.MeshTet.init_tensor(np.linspace(0, 1, 9), np.linspace(0, 8, 2), np.linspace(0, 8, 2)),
         'tri2_a': lambda: fem.MeshTri2.init_circle(1),
         # elements
         'morley': lambda: fem.ElementTriMorley(),
@@ -297,6 +300,16 @@ def _ops():
         ('tagged_mass', ['tri_t'], lambda m: _mesh_numbers(m.with_boundaries({'top': lambda x: x[1] == 1}))),
         ('oriented', ['tri_t'], lambda m: [m.oriented().t, m.oriented().p]),
         ('conn_again', ['tri_t'], lambda m: [m.t, m.facets, m.t2f, m.f2t, m.boundary_nodes()]),
+        ('retag', ['tri_t'], lambda m: m.with_boundaries({'left': lambda x: x[1] == 0, 'new': lambda x: x[0] == 1})),
+        ('resub', ['tri_t'], lambda m: m.with_subdomains({'low': lambda x: x[0] < 0.5, 'hi': lambda x: x[1] > 0.5})),
+        ('finder_far', ['tri_s'], lambda m: m.element_finder()(np.array([0.51, 0.02, 0.98]), np.array([11.5, 23.0, 0.5]))),
+        ('finder_vertices', ['tri_s'], lambda m: m.element_finder()(m.p[0, ::7], m.p[1, ::7])),
+        ('finder_edges', ['tri_s'], lambda m: m.element_finder()(m.p[:, m.facets[:, ::9]].mean(axis=1)[0],
+                                                                  m.p[:, m.facets[:, ::9]].mean(axis=1)[1])),
+        ('probe_p0_s', ['tri_s'], lambda m: fem.Basis(m, fem.ElementTriP0()).probes(
+            np.vstack((m.p[0, ::7], m.p[1, ::7]))) @ np.arange(m.t.shape[1], dtype=float)),
+        ('tfinder_far', ['tet_s'], lambda m: m.element_finder()(np.array([0.51, 0.02]), np.array([3.5, 7.0]), np.array([4.5, 0.5]))),
+        ('tfinder_vertices', ['tet_s'], lambda m: m.element_finder()(m.p[0, ::5], m.p[1, ::5], m.p[2, ::5])),
         ('tetadapt', ['tet_a'], lambda m: m.refined(np.array([0, 3]))),
         ('tetedges', ['tet_a'], lambda m: [m.edges, m.t2e, m.f2e]),
         ('smoothed', ['tri_t'], lambda m: m.smoothed()),
